@@ -117,6 +117,10 @@ func convert(in interface{}) Object {
 		if val.IsNil() {
 			return Nil{}
 		}
+		// a nil pointer stored in the interface is absent data too: its methods must not be bound
+		if e := val.Elem(); e.Kind() == reflect.Ptr && e.IsNil() {
+			return Nil{}
+		}
 
 		if val.Type().NumMethod() == 0 {
 			return convert(val.Interface())
